@@ -114,7 +114,8 @@ def main():
     prop = a.prop; tier = a.tier
     seed = int(os.environ.get('VERIF_SEED', '0') or 0)
     t0 = time.time()
-    work = os.path.join(VERIF, '_work', prop + '_' + tier)
+    # one work directory per invocation (concurrent runs of the same property must not share it); --keep leaves it under a stable name
+    work = os.path.join(VERIF, '_work', prop + '_' + tier + ('' if a.keep else '_%d' % os.getpid()))
     shutil.rmtree(work, ignore_errors=True); os.makedirs(work)
     ensure_generated()
     jobs, mod = load_jobs(prop, tier)
@@ -175,7 +176,7 @@ def main():
     for j, r, why in inconclusive: lines.append('INCONCLUSIVE property=%s job=%s: %s' % (prop, j['name'], why))
 
     wall = time.time() - t0
-    write_evidence(prop, tier, seed, jobs, results, mod, wall, confirmed, inconclusive)
+    write_evidence(prop, tier, seed, jobs, results, mod, wall, confirmed, inconclusive, partial=bool(a.only))
     for j, r in zip(jobs, results):
         print('%-40s %-10s paths=%-6s asserts=%s/%s checks=%-6s queries=%-6s solver=%ss total=%ss' % (r['name'], r.get('status'), r.get('paths'), r.get('assert_sites_reached'), r.get('assert_sites_total'),
               r.get('assert_checks'), r.get('queries'), r.get('solver_s'), r.get('total_s')))
@@ -194,7 +195,7 @@ def ensure_generated():
     if r.returncode != 0: print(r.stdout[-3000:]); sys.exit(2)
 
 
-def write_evidence(prop, tier, seed, jobs, results, mod, wall, confirmed, inconclusive):
+def write_evidence(prop, tier, seed, jobs, results, mod, wall, confirmed, inconclusive, partial=False):
     funcs = set(); stubs = set()
     q = 0; paths = 0; checks = 0; sites = 0; solver = 0.0; samples = []
     for j, r in zip(jobs, results):
@@ -220,7 +221,8 @@ def write_evidence(prop, tier, seed, jobs, results, mod, wall, confirmed, inconc
                   samples=samples[:40], exhaustive=False),
               assumptions=list(getattr(mod, 'ASSUMPTIONS', [])) + COMMON_ASSUMPTIONS)
     os.makedirs(os.path.join(VERIF, 'evidence'), exist_ok=True)
-    json.dump(ev, open(os.path.join(VERIF, 'evidence', prop + '.json'), 'w'), indent=1)
+    # a run restricted with --only (development aid) must not replace the evidence of the full check
+    json.dump(ev, open(os.path.join(VERIF, 'evidence', prop + ('.partial.json' if partial else '.json')), 'w'), indent=1)
 
 
 COMMON_ASSUMPTIONS = [
